@@ -330,8 +330,17 @@ def jobs_check(pid, tier, focus, invariants, note):
         cov['obligations'] = 2
         cov['discharged'] = sum(1 for k in ('base', 'step') if ind.get(k, {}).get('outcome') == 'NoError')
         tool += t2
+    if pid == 'C08':
+        # which jobserver a process uses at all: RedoSetup (MAKEFLAGS / REDO_CHEATFDS / -j decision table)
+        import funcheck
+        scov, stool = funcheck.setup_part(tier, d, verdict, common.build_redo())
+        cov.update(scov)
+        cov['states'] = cov.get('states', 0) + scov.get('setup_configurations', 0)
+        tool += stool
     real = jobcheck.real_part(tier, pid, focus, verdict)
     cov.update(real)
+    if pid == 'C08':
+        cov['traces_validated_against_impl'] = cov.get('traces_validated_against_impl', 0) + cov.get('setup_real_runs', 0)
     cov['samples'] = [real.pop('sample_real')] if real.get('sample_real') else [{'note': 'no clean run'}]
     cov.pop('sample_real', None)
     cov['invariants'] = invariants
